@@ -289,6 +289,8 @@ func NewFECase(g *Gen, id int) *Case {
 		comparable = false // these schemas assert the dynamic type of their input: nil vs "" is a documented difference
 	}
 	bad := ""
+	var mkReq func() *http.Request // the http front ends: the request itself
+	reparseOK := false             // the same request can be parsed again (form and query; a JSON body is consumed)
 	switch fe {
 	case "zjson", "http-json":
 		obj := map[string]any{}
@@ -334,14 +336,15 @@ func NewFECase(g *Gen, id int) *Case {
 			if len(n.Fields) > 0 && g.R.P(50) {
 				q = "?" + url.QueryEscape(feKey(n.Fields[0], "json")) + "=decoy"
 			}
-			mkData = func() any {
+			mkReq = func() *http.Request {
 				r, _ := http.NewRequest(meth, "http://example.com/p"+q, bytes.NewReader(body))
 				if nilBody {
 					r, _ = http.NewRequest(meth, "http://example.com/p"+q, nil)
 				}
 				r.Header.Set("Content-Type", ct)
-				return zhttp.Request(r)
+				return r
 			}
+			mkData = func() any { return zhttp.Request(mkReq()) }
 		}
 	case "http-form", "http-query":
 		vals := url.Values{}
@@ -360,10 +363,20 @@ func NewFECase(g *Gen, id int) *Case {
 				}
 			}
 		}
-		if g.R.P(12) && len(n.Fields) > 0 { // []-suffixed spelling of a list parameter
+		for k, vs := range vals { // blank entries between the others of a []-named list
+			if strings.HasSuffix(k, "[]") && len(vs) > 0 && len(k)%3 == 0 {
+				i := len(vs) / 2
+				vals[k] = append(append(append([]string{}, vs[:i]...), ""), vs[i:]...)
+			}
+		}
+		if g.R.P(20) && len(n.Fields) > 0 { // []-suffixed spelling of a list parameter
 			f := n.Fields[g.R.Intn(len(n.Fields))]
 			if vs, ok := vals[feKey(f, tag)]; ok {
 				delete(vals, feKey(f, tag))
+				if g.R.P(50) && len(vs) > 0 { // blank entries between the others
+					k := g.R.Intn(len(vs))
+					vs = append(append(append([]string{}, vs[:k]...), Pick(g.R, []string{"", " "})), vs[k:]...)
+				}
 				vals[feKey(f, tag)+"[]"] = vs
 				comparable = false
 			}
@@ -423,7 +436,8 @@ func NewFECase(g *Gen, id int) *Case {
 				s, modelIn = coqURLValues(merged)
 				model = "(DFactory (FProv (PUrl \"form\" " + s + ")))"
 			}
-			mkData = func() any {
+			reparseOK = true
+			mkReq = func() *http.Request {
 				u := "http://example.com/p"
 				if query != "" {
 					u += "?" + query
@@ -439,18 +453,21 @@ func NewFECase(g *Gen, id int) *Case {
 				if preparse {
 					_ = r.ParseForm()
 				}
-				return zhttp.Request(r)
+				return r
 			}
+			mkData = func() any { return zhttp.Request(mkReq()) }
 		} else {
 			variant := g.R.Intn(4) // 0,1: GET/HEAD ; 2: POST text/plain with a decoy body ; 3: multipart body, pre-parsed by a middleware
 			s, in := coqURLValues(vals)
 			modelIn = in
 			model = "(DFactory (FProv (PUrl \"query\" " + s + ")))"
-			mkData = func() any {
+			reparseOK = true
+			qmeth := Pick(g.R, []string{"GET", "HEAD"})
+			mkReq = func() *http.Request {
 				var r *http.Request
 				switch variant {
 				case 0, 1:
-					r, _ = http.NewRequest(Pick(g.R, []string{"GET", "HEAD"}), "http://example.com/p?"+enc, nil)
+					r, _ = http.NewRequest(qmeth, "http://example.com/p?"+enc, nil)
 				case 2:
 					r, _ = http.NewRequest("POST", "http://example.com/p?"+enc, strings.NewReader("decoy=1&"+enc))
 					r.Header.Set("Content-Type", "text/plain")
@@ -465,8 +482,9 @@ func NewFECase(g *Gen, id int) *Case {
 					r.Header.Set("Content-Type", w.FormDataContentType())
 					_ = r.FormValue("anything") // what a CSRF middleware does before the handler runs
 				}
-				return zhttp.Request(r)
+				return r
 			}
+			mkData = func() any { return zhttp.Request(mkReq()) }
 		}
 	case "env":
 		var env []string
@@ -518,6 +536,41 @@ func NewFECase(g *Gen, id int) *Case {
 	for i := 0; i < 2; i++ {
 		o := run(mkData())
 		c.Repeats = append(c.Repeats, o.canon(root))
+	}
+	// the request a handler passes in is the caller's: parsing must leave its Form / PostForm / URL as
+	// they were (model-free), and parsing the same request again must give the same result
+	if mkReq != nil {
+		r := mkReq()
+		if reparseOK {
+			_ = r.ParseForm()
+		}
+		snap := func() string {
+			uv := func(v url.Values) string {
+				if v == nil {
+					return "nil"
+				}
+				ks := make([]string, 0, len(v))
+				for k := range v {
+					ks = append(ks, k)
+				}
+				sort.Strings(ks)
+				var b strings.Builder
+				for _, k := range ks {
+					fmt.Fprintf(&b, "%q:%q ", k, v[k])
+				}
+				return "{" + b.String() + "}"
+			}
+			return "Form=" + uv(r.Form) + " PostForm=" + uv(r.PostForm) + " URL=" + r.URL.String()
+		}
+		before := snap()
+		o1 := run(zhttp.Request(r))
+		if after := snap(); after != before {
+			c.FEPure = "the request was modified by Parse:\nbefore: " + before + "\nafter:  " + after
+		} else if reparseOK {
+			if o2 := run(zhttp.Request(r)); o2.canon(root) != o1.canon(root) && !hasPT(n) {
+				c.FEPure = "parsing the same request a second time gave another result:\nfirst:  " + o1.canon(root) + "\nsecond: " + o2.canon(root)
+			}
+		}
 	}
 	ids := map[int]*Node{}
 	indexIDs(root, ids)
